@@ -158,8 +158,11 @@ func H_c13_session() {
 	p, err := tnc.RegisterPort(int(port), "N0CALL")
 	symAssert(err == nil && p != nil, "register-ok")
 	var via []string
-	if symInt(0, 1) == 1 {
+	switch symInt(0, 2) {
+	case 1:
 		via = []string{"DIGI"}
+	case 2:
+		via = []string{"LA1B-10", "LD5SK"}
 	}
 	conn, err := p.DialContext(context.Background(), "N1CALL-1", via...)
 	symAssert(err == nil && conn != nil, "dial-ok")
@@ -176,6 +179,7 @@ func H_c13_session() {
 	in1 := symBytes(symInt(1, 3))
 	emu.send('D', "N1CALL-1", "N0CALL", in1)
 	emu.send('D', "OTHER", "ELSE", []byte("not for us"))
+	emu.send('d', "OTHER", "N0CALL", []byte("*** DISCONNECTED From OTHER\r")) // another station's link goes down: ours must survive
 	emu.sendPort(port+1, 'D', "N1CALL-1", "N0CALL", []byte("same station, other port"))
 	in2 := symBytes(symInt(0, 2))
 	if len(in2) > 0 {
@@ -213,8 +217,11 @@ func H_c13_session() {
 	}
 	wantSeq += "d"
 	symAssert(seq == wantSeq, "agwpe-exchanges-in-order (g X C/v D.. d)")
-	if len(via) > 0 {
-		symAssert(len(emu.viaSeen) == 11 && emu.viaSeen[0] == 1 && cstr(emu.viaSeen[1:]) == "DIGI", "via-list")
+	switch len(via) {
+	case 1:
+		symAssert(bytes.Equal(emu.viaSeen, append([]byte{1}, "DIGI\x00\x00\x00\x00\x00\x00"...)), "via-list")
+	case 2:
+		symAssert(bytes.Equal(emu.viaSeen, append([]byte{2}, "LA1B-10\x00\x00\x00LD5SK\x00\x00\x00\x00\x00"...)), "via-list")
 	}
 	symReach("end")
 }
